@@ -66,6 +66,37 @@ class NamedTup(tuple):
         return t
 
 
+class DynProp:
+    """A property object built at class-creation time by `property(fget, fset)` (e.g. returned by a factory function and
+    bound to a class-level name)."""
+
+    def __init__(self, fget, fset=None):
+        self.fget, self.fset = fget, fset
+
+
+class PropObj:
+    """A property object read off its class (`Cls.prop`), for explicit `fget` / `fset` calls."""
+
+    def __init__(self, cls, name):
+        self.cls, self.name = cls, name
+
+
+class Iter:
+    """Explicit iterator over a finite sequence (iter(seq)): consumed element by element by next() and by for loops."""
+
+    def __init__(self, items):
+        self.items, self.pos = list(items), 0
+
+    def __iter__(self):
+        return self
+
+    def __next__(self):
+        if self.pos >= len(self.items):
+            raise StopIteration
+        self.pos += 1
+        return self.items[self.pos - 1]
+
+
 class Closure:
     def __init__(self, func, env=None, self_obj=None, interp=None):
         self.func = func  # loader.Func or ast.Lambda/FunctionDef
@@ -301,6 +332,8 @@ class Interp:
             return list(v)
         if isinstance(v, Count):
             return v.gen(self.max_loop)
+        if isinstance(v, Iter):
+            return v  # lazily: a loop that breaks leaves the rest in the iterator
         if isinstance(v, Class) and any(isinstance(b, str) and b.split(".")[-1] in ("Enum", "IntEnum", "Flag") for k in self.repo.mro(v) for b in k.bases):
             # iterating an Enum class yields its members in definition order
             return [Sym("enum", v.name, n) for n in v.attrs if not n.startswith("_")]
@@ -311,6 +344,8 @@ class Interp:
 
     # ---------------------------------------------------------------- driver
     def run(self, func, args=(), kwargs=None, self_obj=None):
+        if func is None:
+            raise AnalysisError("the function / property a rule wants to run is not defined by a def in the class (anchor moved)")
         return self.call_func(Closure(func, self_obj=self_obj), list(args), kwargs or {}, None)
 
     def run_all(self, thunk, limit=4096):
@@ -577,7 +612,29 @@ class Interp:
             if st is not None:
                 self.call_func(Closure(st, self_obj=obj), [v], {}, node)
                 return
+            dp = self.class_level_property(obj.cls, attr)
+            if dp is not None:
+                if dp.fset is None:
+                    self.on_raise(Sym("exc", "AttributeError", f"can't set attribute '{attr}'"), node)
+                self.call(dp.fset, [obj, v], {}, node, None)
+                return
         self.set_attr(obj, attr, v, node)
+
+    def class_level_property(self, cls, attr):
+        """The property object a class body binds to `attr` by an expression (`x = make_property(...)`), if any."""
+        for k in self.repo.mro(cls):
+            if attr in k.attrs and isinstance(k.attrs[attr], ast.Call):
+                shared = self.repo.__dict__.setdefault("_class_level_values", {})
+                key = (k.name, attr)
+                if key not in shared:
+                    try:
+                        shared[key] = self.eval(k.attrs[attr], {}, k.module)
+                    except AnalysisError:
+                        return None
+                return shared[key] if isinstance(shared[key], DynProp) else None
+            if attr in k.attrs or attr in k.methods or attr in k.getters:
+                return None
+        return None
 
     def set_item(self, c, k, v, node):
         if isinstance(c, dict):
@@ -666,12 +723,23 @@ class Interp:
                                 shared[key] = self.eval(k.attrs[attr], {}, k.module if hasattr(k, "module") else mod)
                             except AnalysisError:
                                 break
+                        if isinstance(shared[key], DynProp):
+                            if shared[key].fget is None:
+                                raise AnalysisError(f"property {attr} without getter")
+                            return self.call(shared[key].fget, [base], {}, node, mod)
                         return shared[key]
         if isinstance(base, (list, dict, set)) and attr in _CONTAINER_METHODS:
             return Sym("bound", attr, _Box(base))
+        if isinstance(base, PropObj):
+            f = self.repo.resolve(base.cls, base.name, {"fget": "getter", "fset": "setter"}.get(attr, "?"))
+            if f is not None:
+                return Closure(f)  # unbound: called with the instance as first argument
+            raise AnalysisError(f"property attribute .{attr} not in vocabulary")
         if isinstance(base, Class):
             if attr in base.attrs:
                 return Sym("enum", base.name, attr)
+            if self.repo.resolve(base, attr, "getter") is not None and self.repo.resolve(base, attr, "method") is None:
+                return PropObj(base, attr)  # the property object itself (`Cls.prop.fset(obj, value)`)
             mth = self.repo.resolve(base, attr)
             if mth is not None:
                 return Closure(mth)
@@ -802,7 +870,12 @@ class Interp:
             if isinstance(v, ast.Constant):
                 parts.append(v.value)
             else:
-                parts.append(self.eval(v.value, env, mod))
+                if v.format_spec is not None or v.conversion not in (-1, None):
+                    parts.append(Sym("formatted", self.eval(v.value, env, mod)))
+                else:
+                    parts.append(self.eval(v.value, env, mod))
+        if parts and all(isinstance(p, str) for p in parts):
+            return "".join(parts)  # every part is a known string: the string itself (attribute names built from a prefix)
         return Sym("fstr", *[_keep(p) for p in parts])
 
     def e_Yield(self, e, env, mod):
@@ -952,6 +1025,13 @@ class Interp:
         if name == "next":
             # generator expressions are evaluated eagerly into lists: next(gen[, default]) is its first element
             seq = args[0]
+            if isinstance(seq, Iter):
+                try:
+                    return next(seq)
+                except StopIteration:
+                    if len(args) > 1:
+                        return args[1]
+                    self.on_raise(Sym("exc", "StopIteration"), node)
             if isinstance(seq, (list, tuple)):
                 if seq:
                     return seq[0]
@@ -959,8 +1039,12 @@ class Interp:
                     return args[1]
                 self.on_raise(Sym("exc", "StopIteration"), node)
             raise AnalysisError("next() on a non-list iterator")
+        if name == "property":
+            return DynProp(args[0] if args else kwargs.get("fget"), args[1] if len(args) > 1 else kwargs.get("fset"))
         if name == "iter":
-            raise AnalysisError("explicit iterators not in vocabulary")
+            if len(args) != 1:
+                raise AnalysisError("iter(callable, sentinel) not in vocabulary")
+            return args[0] if isinstance(args[0], Iter) else Iter(self.iterate(args[0], node))
         if name in ("int", "float", "abs"):
             a = args[0] if args else 0
             if isinstance(a, bool) or (isinstance(a, (int, float)) and not isinstance(a, bool)):
@@ -1294,7 +1378,7 @@ _SINGLETON_OPS = {"enum", "nomask"}
 _BUILTINS = {
     "len", "isinstance", "enumerate", "reversed", "range", "list", "tuple", "set", "dict",
     "zip", "any", "all", "min", "max", "bool", "str", "id", "sorted", "map", "print",
-    "hasattr", "getattr", "setattr", "next", "int", "float", "abs", "iter", "callable", "frozenset", "sum", "round", "type",
+    "hasattr", "getattr", "setattr", "next", "int", "float", "abs", "iter", "callable", "frozenset", "sum", "round", "type", "property",
 }
 _CONTAINER_METHODS = {
     "append", "pop", "clear", "extend", "insert", "sort", "copy", "index", "items", "keys",
